@@ -1,2 +1,2 @@
 #!/bin/bash
-for p in C03 C04 C11 C12 C13 C14 C02 C19; do echo "=== thorough $p"; VERIF_MAX_REPORTS=40 ./check $p --tier thorough 2>&1 | grep -a -v "^KNOWN-FINDING" | tail -40 | cut -c1-500; done
+for p in ${@:-C03 C04 C11 C12 C13 C14 C02 C19}; do echo "=== thorough $p"; VERIF_MAX_REPORTS=40 ./check $p --tier thorough 2>&1 | grep -a -v "^KNOWN-FINDING" | tail -40 | cut -c1-500; done
